@@ -28,4 +28,75 @@ def reqOk : Store → List Ev → Bool
 /-- "the bytes hash to the multihash", for an arbitrary hash relation `H`: every stored entry satisfies it -/
 def storeH (H : Key → Data → Prop) (st : Store) : Prop := ∀ k d, st.get k = some d → H k d
 
+/-! ## whole histories -/
+
+/-- the CIDs an API call asks for -/
+def requested : Op → List Cid
+  | .get c _ _ _ _ => [c]
+  | .getMany ks _ _ _ _ => ks
+  | _ => []
+
+/-- every blockstore read of the call succeeds -/
+def readsOk : Op → Prop
+  | .get _ _ _ _ rdOk => rdOk = true
+  | .getMany _ _ _ _ rd => ∀ j, rd j = true
+  | _ => True
+
+/-- The C05 clauses along a whole history of calls (the store is threaded from call to call): in every call,
+every emitted block is cached when emitted, only requested CIDs are emitted, and — when the call's reads
+succeed — nothing stored is requested from the exchange. -/
+def histOk (cfg : Cfg) : Store → List Op → Prop
+  | _, [] => True
+  | st, op :: r =>
+    cachedOk st (stepOp cfg st op).2 = true ∧
+    (readsOk op → reqOk st (stepOp cfg st op).2 = true) ∧
+    (∀ b ∈ emitted (stepOp cfg st op).2, b.1 ∈ requested op) ∧
+    histOk cfg (stepOp cfg st op).1 r
+
+/-- the blocks an API call brings in from outside (caller or exchange) are well formed w.r.t. `H` -/
+def faithful (H : Key → Data → Prop) : Op → Prop
+  | .add b _ => H b.1.mh b.2
+  | .addMany bs _ => ∀ b ∈ bs, H b.1.mh b.2
+  | .get _ ans _ _ _ => ∀ b, ans = some b → H b.1.mh b.2
+  | .getMany _ ans _ _ _ => ∀ bs, ans = some bs → ∀ b ∈ bs, H b.1.mh b.2
+  | .del _ => True
+
+/-! ## sessions (blockservice.Session: `createSession sync.Once`, `ses exchange.Fetcher`) -/
+
+structure Ses where
+  /-- `createSession.Do` has run -/
+  once : Bool := false
+  /-- `s.ses` is a fetcher obtained from `exchange.NewSession` (otherwise the exchange itself, or nil) -/
+  isSes : Bool := false
+  deriving DecidableEq, Repr
+
+/-- `grabSession`: new state, and whether `SessionExchange.NewSession` is called by this invocation.
+`sesEx`: the exchange implements SessionExchange. -/
+def grabSession (hasEx sesEx : Bool) (s : Ses) : Ses × Bool :=
+  if s.once then (s, false) else ({ once := true, isSes := hasEx && sesEx }, hasEx && sesEx)
+
+/-- does getBlock invoke its fetch factory? only after a successful local miss of an allowlisted CID
+("lazily create session if needed"); getBlocks invokes it on every call ("don't load exchange unless we have to"
+comes after the call in the code). -/
+def getBlockGrabs (cfg : Cfg) (st : Store) (c : Cid) (rdOk : Bool) : Bool :=
+  valid cfg.al c && rdOk && (st.get c.mh).isNone
+
+/-- Session.GetBlock: the block-level behaviour is `getBlock`; the session state decides which fetcher is
+asked (`isSes` after the call) and whether NewSession was called. -/
+def sesGetBlock (cfg : Cfg) (sesEx : Bool) (s : Ses) (st : Store) (c : Cid) (ans : Option Blk) (nOk : Bool)
+    (pf : Option Nat) (rdOk : Bool) : Ses × Bool × (Store × Res × List Ev) :=
+  let g := if getBlockGrabs cfg st c rdOk then grabSession cfg.hasEx sesEx s else (s, false)
+  (g.1, g.2, getBlock cfg st c ans nOk pf rdOk)
+
+/-- Session.GetBlocks -/
+def sesGetBlocks (cfg : Cfg) (sesEx : Bool) (s : Ses) (st : Store) (ks : List Cid) (ans : Option (List Blk))
+    (nf pf : Option Nat) (rd : Nat → Bool) : Ses × Bool × (Store × List Ev) :=
+  let g := grabSession cfg.hasEx sesEx s
+  (g.1, g.2, getBlocks cfg st ks ans nf pf rd)
+
+/-- the NewSession calls of a sequence of grabSession invocations on one Session object -/
+def grabs (hasEx sesEx : Bool) : Ses → Nat → List Bool
+  | _, 0 => []
+  | s, n + 1 => (grabSession hasEx sesEx s).2 :: grabs hasEx sesEx (grabSession hasEx sesEx s).1 n
+
 end C05
